@@ -1,1 +1,9 @@
+"""A tests package whose __init__ declares something that a regular module imports."""
 
+
+def make_fixture() -> int:
+    return 1
+
+
+class FixtureInInit:
+    def fixture_method(self) -> None: ...
